@@ -169,11 +169,33 @@ def rule_r2(chk):
         chk.ob("C07-R2", f"stacked_time.simulators._get_wrt_spots[{kind} spots]", ok if parts else None,
                f"{kind}: {parts} (anticipated over all columns, unanticipated in the first column only)", m.loc(f))
     sp = m.func("_get_wrt_spots.spots_from_register")
-    src = squash(sp)
-    ok = "Token(name_to_qid[n],shift)" in src and "forcolumn,shiftinenumerate(columns_to_run)" in src and "registers_as_bool_arrays[register_name][row,column]" in src \
-        and "forrow,ninenumerate(row_names_in_registers[register_name])" in src
-    chk.ob("C07-R2", "stacked_time.simulators._get_wrt_spots.spots_from_register", ok,
-           "spot = (qid of the register row's name, data column of the register column)", m.loc(sp))
+    from ..core import inline_locals
+    sps = params(sp)
+    comps = [n for n in ast.walk(sp) if isinstance(n, (ast.GeneratorExp, ast.SetComp, ast.ListComp)) and isinstance(n.elt, ast.Call) and dotted(n.elt.func) == "Token"]
+    ok, detail = None, "the comprehension that builds Token(qid, column) is not recognised"
+    if len(comps) == 1 and len(comps[0].generators) == 2 and len(comps[0].elt.args) == 2 and len(sps) == 2:
+        c = comps[0]
+        gens = {}
+        for g_ in c.generators:
+            it = inline_locals(sp, g_.iter)
+            if isinstance(it, ast.Call) and dotted(it.func) == "enumerate" and isinstance(g_.target, ast.Tuple) and len(g_.target.elts) == 2:
+                gens[squash(it.args[0])] = (unparse(g_.target.elts[0]), unparse(g_.target.elts[1]), it.args[0])
+        col_gen = gens.get(sps[1])
+        row_gens = [v for k, v in gens.items() if k != sps[1]]
+        conds = [inline_locals(sp, t) for g_ in c.generators for t in g_.ifs]
+        if col_gen and len(row_gens) == 1 and len(conds) == 1:
+            r_idx, r_name, r_iter = row_gens[0]
+            c_idx, c_val, _ = col_gen
+            qid_ok = squash(c.elt.args[0]) == f"name_to_qid[{r_name}]"
+            col_ok = squash(c.elt.args[1]) == c_val
+            cd = conds[0]
+            cond_ok = isinstance(cd, ast.Subscript) and squash(cd.slice).strip("()") == f"{r_idx},{c_idx}" and squash(cd.value).endswith(f"[{sps[0]}]")
+            rows_ok = squash(r_iter).endswith(f"[{sps[0]}]")
+            ok = qid_ok and col_ok and cond_ok and rows_ok
+            detail = (f"Token({unparse(c.elt.args[0])}, {unparse(c.elt.args[1])}) for the rows of {unparse(r_iter)} and the columns of {sps[1]}, "
+                      f"kept when {unparse(cd)}: qid of the row's name {qid_ok}; data column of the position {col_ok}; incidence read at "
+                      f"[row, position] of the same register {cond_ok and rows_ok}")
+    chk.ob("C07-R2", "stacked_time.simulators._get_wrt_spots.spots_from_register", ok, detail, m.loc(sp))
     rb = assign_value(f, "registers_as_bool_arrays")
     ok = rb is not None and "periods=periods_to_run" in squash(rb) and "register_names=_RELEVANT_REGISTER_NAMES" in squash(rb)
     chk.ob("C07-R2", "stacked_time.simulators._get_wrt_spots[register periods]", ok if rb is not None else None,
